@@ -21,7 +21,8 @@ from vlib.verdict import Ctx
 
 HOMOGENEITY = {"single_layer": 3, "double_layer": 2, "adjoint_double_layer": 2, "hypersingular": 1, "identity": 2, "laplace_beltrami": 0,
                "electric_field": 2, "magnetic_field": 2}
-KA = {"DP0": ("DP", 0), "DP1": ("DP", 1), "P1": ("P", 1), "RWG": ("RWG", 0), "SNC": ("SNC", 0)}
+KA = {"DP0": ("DP", 0), "DP1": ("DP", 1), "P1": ("P", 1), "RWG": ("RWG", 0), "SNC": ("SNC", 0),
+      "P1i": ("P", 1)}   # P1 with default options (no boundary dofs): on open grids its dof set depends on the boundary flags of the grid
 LOCAL = np.array([[0.2, 0.6, 0.15], [0.3, 0.1, 0.7]])
 SING_ORDERS = (4, 8, 10)
 
@@ -192,7 +193,7 @@ def main():
                 Rm = None
                 X2 = X * s_
             where2 = locate(m2, X2)
-            for fam, op, tk, sk, k in cfgs:
+            for fam, op, tk, sk, k in cfgs + ([("laplace", "single_layer", "P1i", "P1i", None)] if open_grid else []):
                 cid = "%s:%s:%s.%s[%s,%s]" % (mname, aname, fam, op, tk, sk)
                 if not ctx.want(cid):
                     continue
